@@ -17,6 +17,10 @@ One *thread* = one API call, numbered in invocation order by the harness:
   if it is neither done nor failed, samples the wait channel **in the same critical section**
   (broadcast.go:83-92), then blocks in a `select` on ctx.Done and that channel.
 
+The marks `cbin t` / `cbend t` logged at the start and end of every body (and of every predicate
+evaluation of `Wait`) are observable events that change nothing here; `Lock.lean` layers the mutex on
+top of this model (a body is `cbin`, one atomic event, `cbend`, and bodies never overlap).
+
 Wait channels are the channel generations of `Core/Bcast.lean`; a *handle* is a channel id returned
 by a `getWaitCh` of a body and kept by the harness, which probes it with non-blocking receives.
 -/
@@ -150,6 +154,8 @@ inductive Obs where
   | invHold (t : Nat) (k : HKind) (p : Prog)  -- `inv t hold|tryhold|mhold <prog>`
   | retHold (t : Nat) (k : HKind) (ok : Bool) -- `ret t hold` / `ret t tryhold true|false` / `ret t mhold`
   | cbout (t : Nat)                           -- `cbout t`: body of mhold call t finished (logged in the body)
+  | bodyIn (t : Nat)                          -- `cbin t`: a callback body / predicate evaluation of call t starts (logged in it)
+  | bodyOut (t : Nat)                         -- `cbend t`: it ends (logged in it, still under the mutex)
   | invWait (t : Nat) (p : Option Pred)       -- `inv t wait eq|ge|err v` / `inv t wait nilcb`
   | retWait (t : Nat) (r : WRes)              -- `ret t wait nil|err|canceled|badarg`
   | envCancel (t : Nat)                       -- `env cancel t`
@@ -163,6 +169,8 @@ inductive Ev where
   | tryFail (t : Nat)                -- TryLock returned false
   | retHold (t : Nat) (k : HKind) (ok : Bool)
   | cbout (t : Nat)
+  | bodyIn (t : Nat)
+  | bodyOut (t : Nat)
   | invWait (t : Nat) (p : Option Pred)
   | waitCS (t : Nat)                 -- critical section of Wait at the top of the loop
   | wakeCS (t : Nat)                 -- wait channel closed: loop, critical section again
@@ -178,6 +186,8 @@ def Ev.obs : Ev → Option Obs
   | .invHold t k p => some (.invHold t k p)
   | .retHold t k ok => some (.retHold t k ok)
   | .cbout t => some (.cbout t)
+  | .bodyIn t => some (.bodyIn t)
+  | .bodyOut t => some (.bodyOut t)
   | .invWait t p => some (.invWait t p)
   | .retWait t r => some (.retWait t r)
   | .envCancel t => some (.envCancel t)
@@ -189,6 +199,8 @@ def Obs.ev : Obs → Ev
   | .invHold t k p => .invHold t k p
   | .retHold t k ok => .retHold t k ok
   | .cbout t => .cbout t
+  | .bodyIn t => .bodyIn t
+  | .bodyOut t => .bodyOut t
   | .invWait t p => .invWait t p
   | .retWait t r => .retWait t r
   | .envCancel t => .envCancel t
@@ -229,6 +241,24 @@ def quiescent (s : St) : Bool :=
     | some ts => TS.quiet s t ts
     | none => true
 
+/-- call `t` is about to run a callback body / evaluate its predicate under the mutex -/
+def preBody (s : St) (t : Nat) : Bool :=
+  match s.th[t]? with
+  | some (.holdInv _ _) => true
+  | some (.mInv _ _) => true
+  | some (.wInv _) => true
+  | some (.wParked _ c) => s.bc.closed c
+  | _ => false
+
+/-- call `t` has run its body / evaluated its predicate -/
+def postBody (s : St) (t : Nat) : Bool :=
+  match s.th[t]? with
+  | some (.holdRan _ _) => true
+  | some (.mRan _ false _) => true
+  | some (.wRet _) => true
+  | some (.wParked _ _) => true
+  | _ => false
+
 def step (s : St) : Ev → Option St
   | .invHold t k p =>
     if t = s.th.length then
@@ -259,6 +289,8 @@ def step (s : St) : Ev → Option St
     match s.th[t]? with
     | some (.mRan hs false rt) => some { s with th := s.th.set t (if rt then .done hs else .mRan hs true false) }
     | _ => none
+  | .bodyIn t => if preBody s t then some s else none
+  | .bodyOut t => if postBody s t then some s else none
   | .invWait t p =>
     if t = s.th.length then
       match p with
@@ -332,6 +364,8 @@ def Obs.parse : List String → Option Obs
   | ["ret", t, "tryhold", "false"] => do pure (.retHold (← t.toNat?) .try false)
   | ["ret", t, "mhold"] => do pure (.retHold (← t.toNat?) .maybe true)
   | ["cbout", t] => do pure (.cbout (← t.toNat?))
+  | ["cbin", t] => do pure (.bodyIn (← t.toNat?))
+  | ["cbend", t] => do pure (.bodyOut (← t.toNat?))
   | ["inv", t, "wait", "eq", v] => do pure (.invWait (← t.toNat?) (some (.eq (← v.toNat?))))
   | ["inv", t, "wait", "ge", v] => do pure (.invWait (← t.toNat?) (some (.ge (← v.toNat?))))
   | ["inv", t, "wait", "err", v] => do pure (.invWait (← t.toNat?) (some (.err (← v.toNat?))))
